@@ -18,10 +18,10 @@ RULE = ("seeded include trees (depth <= 3, nested directories, repeated includes
         "conditional include after a moleculetype has started in the same file. non-trivial = tree with >= 1 "
         "conditional include or #error and >= 2 files; distinct = hash(all file texts)"
         ' Later: the topology reached through a symbolic link whose target lives elsewhere.')
-ASSUMPTIONS = ["#define only outside conditionals; included files start with a section header and the includer opens a new "
+ASSUMPTIONS = ["#define only outside conditionals, except the include-guard idiom of the guard stratum; included files start with a section header and the includer opens a new "
                "section after an include (GROMACS files are written that way; polyply parses each file with a fresh "
                "section state)",
-               "[ system ] / [ molecules ] only in the top file; conditionals are not nested and do not span files",
+               "[ system ] only in the top file, [ molecules ] lines there or (stratum mols_inc) continued in an included file that opens the section again; conditionals are not nested and do not span files",
                "main stratum: all pragmas of a file precede its first [ moleculetype ]"]
 CASE_TIMEOUT = 60
 WALL = {"quick": 900, "thorough": 7200}
